@@ -399,3 +399,71 @@ Definition run_cfg (vs : list value) (g : tape) (disable_sync : bool) (n : nat)
   | Ok q => run n q
   | _ => ([], EPanic)
   end.
+
+(** * FixedQueue (fixed_queue.go) and the fixed arm of client.go reset
+
+    [NewFixed(resp, delay)] keeps the caller's slice ([resp: resp]); reset then
+    calls [q.Add(syncResp)], i.e. [q.resp = append(q.resp, resp)] -- an append
+    to a slice that shares its backing array with the configuration.  A Go
+    slice is modelled as a window on a backing array whose length is the
+    capacity; an append within capacity writes into the array and is seen by
+    every slice sharing it.  (The delay fields only feed time.Sleep; not modelled.) *)
+
+Definition fix_C20_3 : bool := false.
+  (* DEFECT C20_3: NewFixed shares the configuration's slice; with the patch
+     (copy in NewFixed) this switch becomes [true] *)
+
+Section Fixed.
+Context {R : Type}.
+
+Record gslice := mkSl { s_arr : list R; s_off : nat; s_len : nat }.
+
+Definition sl_elems (s : gslice) : list R := firstn (s_len s) (skipn (s_off s) (s_arr s)).
+
+Definition set_at (i : nat) (r : R) (l : list R) : list R := firstn i l ++ r :: skipn (S i) l.
+
+(** append(s, r) *)
+Definition sl_append (s : gslice) (r : R) : gslice :=
+  if (s_off s + s_len s <? List.length (s_arr s))%nat
+  then mkSl (set_at (s_off s + s_len s) r (s_arr s)) (s_off s) (S (s_len s))
+  else mkSl (sl_elems s ++ [r]) 0 (S (s_len s)).      (* reallocation *)
+
+(** NewFixed *)
+Definition fq_new (resp : gslice) : gslice :=
+  if fix_C20_3 then mkSl (sl_elems resp) 0 (s_len resp)   (* DEFECT C20_3: becomes the only arm *)
+  else resp.
+
+(** FixedQueue.Add *)
+Definition fq_add (q : gslice) (r : R) : gslice := sl_append q r.
+
+(** FixedQueue.Next: [resp := q.resp[0]; q.resp = q.resp[1:]] *)
+Definition fq_next (q : gslice) : option (R * gslice) :=
+  match s_len q, nth_error (s_arr q) (s_off q) with
+  | S n, Some r => Some (r, mkSl (s_arr q) (S (s_off q)) n)
+  | _, _ => None
+  end.
+
+Fixpoint fq_run (n : nat) (q : gslice) : list R :=
+  match n with
+  | O => []
+  | S n' => match fq_next q with Some (r, q') => r :: fq_run n' q' | None => [] end
+  end.
+
+(** client.go reset, fixed arm, for a configuration whose Responses slice is
+    [arr[:k]]; returns the queue and the backing array as it is afterwards *)
+Definition fixed_reset (arr : list R) (k : nat) (nosync : bool) (sync : R) : gslice * list R :=
+  let q0 := fq_new (mkSl arr 0 k) in
+  let q := if nosync then q0 else fq_add q0 sync in
+  (q, if fix_C20_3 || nosync then arr
+      else if (k <? List.length arr)%nat then s_arr q else arr).
+
+(** several generators, one after another, built from prefixes [ks] of the same array *)
+Fixpoint fixed_scenario (arr : list R) (ks : list nat) (nosync : bool) (sync : R) (steps : nat)
+  : list (list R) :=
+  match ks with
+  | [] => []
+  | k :: ks' =>
+      let qa := fixed_reset arr k nosync sync in
+      fq_run steps (fst qa) :: fixed_scenario (snd qa) ks' nosync sync steps
+  end.
+End Fixed.
